@@ -92,6 +92,18 @@ BUILT = {
              'data block; quantisation step taken from the file\'s own header and bounded by the format range. Known finding: a Code V file cut inside '
              'its last token is read silently (known_findings.jsonl).',
         technique='TLA+ fault-machine spec (InstrumentFile.tla) checked by TLC over all truncation points; every behaviour replayed on real files written, cut and read by prysm'),
+    'C16': dict(
+        spec='Sensor.tla',
+        text='Sensor.tla models the exposure pipeline as a sequential machine over exact rationals (dark, bias, full-well clip, gain, ADC clip, integer '
+             'conversion left open as floor-or-round, modular cast to the unsigned container as numpy does) and TLC checks InRange, Monotone and Saturates '
+             'at and around every threshold for every bit depth / gain / bias / dark / exposure / well depth of the menu; the pinned ceiling 2^bits is a '
+             'variant that must violate them. Bin/tile are index maps on N-D integer arrays with conservation and adjointness laws; the Bayer part is the '
+             'colour-site map of both layouts with recomposition = identity. Emitted configurations are replayed into Detector.expose (noise off through '
+             'the public back-end shim; range, monotonicity, value within one count, shape, dtype), bindown/tile (values, totals, levels, adjoint) and '
+             'prysm.bayer (decomposite, recomposite, composite, both demosaics: every raw sample at its native site).',
+        note='Trusted: TLC, numpy. Bounded: bit depths 1..24, N <= 3 dimensions, mosaics up to 6x8; white-balance helpers are not part of the statement and '
+             'are not checked.',
+        technique='TLA+ spec (Sensor.tla: pipeline machine, index-map laws, colour-site map) checked by TLC; emitted configurations replayed into prysm.detector / prysm.bayer'),
 }
 
 NOT_BUILT_REASON = 'not built yet in this round (specification planned in DESIGN.md section 4; never decided by another technique)'
